@@ -430,7 +430,7 @@ impl Prop for C07 {
         "C07"
     }
     fn rule(&self) -> &'static str {
-        "stateful, model-based: 2..4 flows that differ in exactly one tuple component (source port, source address, destination port), cookies learned from the responder's SYN-ACKs; histories of 1..24 ops: SYN with any flag set, data segments (PSH|ACK plus optional URG/FIN/SYN/RST/ECE/CWR/NS) with ack in {cookie+1, cookie, cookie+2, 0, 2^32-1, random}, seq continuing / within 2 KiB of the wrap / random, payload 0..1400 bytes (garbage, protocol requests, request prefixes), TCP options; bare FIN|ACK, ACK, RST; unrelated noise (ARP/ICMP/UDP/raw/lying headers). Reference model: validated set; unvalidated flow and ack != cookie+1 => silence; otherwise exactly one reply with flags ACK (+PSH iff payload), seq = peer ack, ack = peer seq + payload length mod 2^32; FIN|ACK -> FIN|ACK ack seq+1; bare ACK/RST -> silence. Directed: a tuple whose cookie is 0xFFFFFFFF (ack = 0 branch), committed for quick and re-validated against the SYN-ACK, searched over 2^32 tuples in thorough. Non-trivial = the history holds both a rejected data segment on an unvalidated flow and an accepted one; distinct by case hash."
+        "stateful, model-based: 2..4 flows that differ in exactly one tuple component (source port, source address, destination port), cookies learned from the responder's SYN-ACKs; histories of 1..24 ops: SYN with any flag set, data segments (PSH|ACK plus optional URG/FIN/SYN/RST/ECE/CWR/NS) with ack in {cookie+1, cookie, cookie+2, 0, 2^32-1, random, another flow's cookie+1, near misses cookie+1±d for d in 1..16 / 17..4096 / 4097..70000}, seq continuing / within 2 KiB of the wrap / random, payload 0..1400 bytes (garbage, protocol requests, request prefixes), TCP options; bare FIN|ACK, ACK, RST; bare ACK / RST / FIN|ACK whose ack is cookie-related (the handshake-completing ACK), SYNs carrying payload, unrelated noise (ARP/ICMP incl. ICMP errors quoting the responder's packets/UDP/raw/lying headers). Reference model: validated set; unvalidated flow and ack != cookie+1 => silence; otherwise exactly one reply with flags ACK (+PSH iff payload), seq = peer ack, ack = peer seq + payload length mod 2^32; FIN|ACK -> FIN|ACK ack seq+1; bare ACK/RST -> silence. Directed: a tuple whose cookie is 0xFFFFFFFF (ack = 0 branch), committed for quick and re-validated against the SYN-ACK, searched over 2^32 tuples in thorough. Non-trivial = the history holds both a rejected data segment on an unvalidated flow and an accepted one; distinct by case hash."
     }
     fn run(&self, ctx: &mut RunCtx) {
         let n = ctx.share(ctx.tier.n(300_000, 5_000_000));
@@ -522,7 +522,7 @@ impl Prop for C09 {
         "C09"
     }
     fn rule(&self) -> &'static str {
-        "stateful: histories of 1..200 ops over 2..4 flows — SYN with all flag sets, data segments with wrong acknowledgement numbers (cookie, cookie+2, 0, 2^32-1, random), bare FIN|ACK / ACK / RST, UDP / ICMP / ARP / raw / lying-header noise, interleaved with a few valid data segments and repeated valid data on validated flows — plus floods of 10^4 (quick) / 10^5 (thorough) unvalidated frames from pseudo-random tuples next to one validated flow. Oracle: after EVERY frame the size of the connection table (hook verif_tcb_len) equals the number of flows that have sent a data segment acknowledging cookie+1 according to the reference model. Non-trivial = at least 20 unvalidated frames and at least one validated flow in the history; distinct by case hash."
+        "stateful: histories of 1..200 ops over 2..4 flows — SYN with all flag sets, data segments with wrong acknowledgement numbers (cookie, cookie+2, 0, 2^32-1, random, another flow's cookie+1, near misses cookie+1±d up to 70000), bare FIN|ACK / ACK / RST, UDP / ICMP / ARP / raw / lying-header noise, interleaved with a few valid data segments and repeated valid data on validated flows — plus floods of 10^4 (quick) / 10^5 (thorough) unvalidated frames from pseudo-random tuples next to one validated flow. Oracle: after EVERY frame the size of the connection table (hook verif_tcb_len) equals the number of flows that have sent a data segment acknowledging cookie+1 according to the reference model. Non-trivial = at least 20 unvalidated frames and at least one validated flow in the history; distinct by case hash."
     }
     fn run(&self, ctx: &mut RunCtx) {
         let n = ctx.share(ctx.tier.n(40_000, 600_000));
